@@ -1,8 +1,10 @@
 package graph
 
 import (
+	"cmp"
 	"errors"
 	"fmt"
+	"slices"
 
 	"gonum.org/v1/gonum/graph"
 	"gonum.org/v1/gonum/graph/encoding"
@@ -76,9 +78,12 @@ func (g *AuthorizationModelGraph) Reversed() (*AuthorizationModelGraph, error) {
 			return nil, fmt.Errorf("%w: could not cast to multi.Edge", ErrBuildingGraph)
 		}
 		// NOTE: because we use a multigraph, one edge can include multiple lines, so we need to add each line individually.
-		iterLines := nextEdge.Lines
-		for iterLines.Next() {
-			nextLine := iterLines.Line()
+		// re-add the lines in the order of their ids: the iterator hands them out in map order, and the
+		// new graph numbers parallel lines in the order they are added
+		lines := graph.LinesOf(nextEdge.Lines)
+		slices.SortFunc(lines, func(a, b graph.Line) int { return cmp.Compare(a.ID(), b.ID()) })
+
+		for _, nextLine := range lines {
 			casted, ok := nextLine.(*AuthorizationModelEdge)
 			if !ok {
 				return nil, fmt.Errorf("%w: could not cast to AuthorizationModelEdge", ErrBuildingGraph)
